@@ -35,6 +35,7 @@ import numpy as np
 from checks import dynlib
 from mc import canon, lattice
 from oracles import dynamics as dyn
+from oracles import se3
 
 MOD = "checks.c08"
 REL = 1e-8
@@ -631,6 +632,37 @@ def eval_arm_after_setter(acc, mr, ac, q, V):
         acc.resid("arm_after_inertia_setter", r)
         if not r <= (1e-6 if name == "forwardDynamicsE" else REL):
             acc.violation("arm_after_inertia_setter", dict(base, fn=name), {"rel": r}, REL)
+    # second stage on the same object: the LINK FRAMES are replaced through setOrigins (+ the matching setMassProperties);
+    # every function must answer for the new frames, as the port does when fed the new link-frame list
+    from basic_robotics.general import tm
+    link_global, X = [], np.eye(4)
+    for i in range(n):
+        X = X @ np.array(Ml[i], float)
+        link_global.append(X.copy())
+    tip_global = X @ np.array(Ml[n], float)
+    D = se3.T_from([0.0, 0.0, 0.4], [0.05, -0.02, 0.03])
+    new_global = [link_global[i] @ (D if i % 2 == 0 else se3.tinv(D)) for i in range(n)]
+    Ml3 = np.array([new_global[0]] + [se3.tinv(new_global[i - 1]) @ new_global[i] for i in range(1, n)] + [se3.tinv(new_global[n - 1]) @ tip_global])
+    try:
+        with dynlib_quiet():
+            arm.setOrigins(link_homes_global=[tm(T.copy()) for T in new_global])
+            arm.setMassProperties(ac.masses.copy(), [tm(T.copy()) for T in Ml3], G2.copy())
+        got = ask()
+    except Exception as e:
+        acc.violation("raised", dict(base, fn="link-frame setter history"), repr(e))
+        return
+    M = call("MassMatrix", mr.MassMatrix, q, Ml3, G2, S)
+    tau = call("InverseDynamics", mr.InverseDynamics, q, qd, qdd, g, F, Ml3, G2, S)
+    cg = call("VelQuadraticForces", mr.VelQuadraticForces, q, qd, Ml3, G2, S) + call("GravityForces", mr.GravityForces, q, g, Ml3, G2, S)
+    T = max(1.0, amax(tau))
+    want = {"massMatrix": (flat(M), amax(M)), "inverseDynamics": (flat(tau), T), "inverseDynamicsC": (flat(tau), T),
+            "inverseDynamicsEMR": (flat(tau), T), "coriolisGravity": (flat(cg), T), "forwardDynamicsE": (flat(qdd), max(1.0, amax(qdd)))}
+    for name, (w, sc) in want.items():
+        acc.evals += 1
+        r = amax(got[name] - w) / sc if got[name].shape == w.shape and finite(got[name]) else float("inf")
+        acc.resid("arm_after_link_frame_setter", r)
+        if not r <= (1e-6 if name == "forwardDynamicsE" else REL):
+            acc.violation("arm_after_link_frame_setter", dict(base, fn=name), {"rel": r}, REL)
 
 
 def work_arms(p):
